@@ -424,7 +424,7 @@ func evalC13(op string, args []string) string {
 			}
 		}
 		// the request flavour of the dumper, an empty dictionary, a packet without attributes
-		req := &radius.Request{Packet: p, LocalAddr: labAddr{"local"}, RemoteAddr: labAddr{"remote"}}
+		req := &radius.Request{Packet: p, LocalAddr: &labAddr{"local"}, RemoteAddr: &labAddr{"remote"}}
 		if debug.DumpRequestString(&debug.Config{Dictionary: debug.IncludedDictionary}, req) != debug.DumpRequestString(&debug.Config{Dictionary: debug.IncludedDictionary}, req) {
 			d2 = d1 + "?"
 		}
@@ -752,6 +752,25 @@ func genC02(g *Gen, tier string, emit func(op string, args ...string)) {
 		}
 		b[2], b[3] = byte(len(b)>>8), byte(len(b))
 		emit("datagram", hx(b), hx(g.RandBytes(g.Pick(1, 8))), hx(g.Bytes(g.Pick(0, 20))))
+	}
+	// text values: well-formed packets whose text attributes carry multi-octet UTF-8 (octet count and rune count
+	// differ), of every length class up to the attribute limit, whole and cut in the middle of a character, and
+	// octets that are not UTF-8 at all - whatever the dumper and the getters slice, pad or elide is counted in one unit
+	for _, unit := range []string{"\u00e9", "\u65e5", "\U0001F600", "\ufffd", "a\u0301", "\u65e5a", "\xff", "\xe6\x97", "\u2028"} {
+		for _, total := range []int{1, 2, 3, 4, 15, 16, 17, 31, 32, 33, 63, 64, 65, 66, 96, 100, 120, 127, 128, 129, 200, 250, 252, 253} {
+			v := []byte(strings.Repeat(unit, total/len(unit)+1))[:total] // (cuts the last character when total is not a multiple)
+			typ := byte(g.Pick(1, 18, 11, 32, 30, 31, 24, 79))
+			b := make([]byte, 20, 20+2+len(v)+8)
+			b[0], b[1] = byte(g.Pick(1, 2, 4, 11)), byte(g.U64())
+			copy(b[4:], g.RandBytes(16))
+			b = append(b, typ, byte(2+len(v)))
+			b = append(b, v...)
+			if g.Bool() {
+				b = append(b, 18, 5, 0xe6, 0x97, 0xa5)
+			}
+			b[2], b[3] = byte(len(b)>>8), byte(len(b))
+			emit("datagram", hx(b), hx(g.RandBytes(g.Pick(1, 8))), hx(g.Bytes(g.Pick(0, 20))))
+		}
 	}
 	// de-obfuscation with an exactly chosen decrypted length octet (needs the key stream, so it is crafted here)
 	for k := 1; k <= 15; k++ {
